@@ -1,6 +1,6 @@
 """C15 — stores never lose an update (first sentence; watcher delivery under concurrency is outside, DESIGN.md section 7)."""
 import driver
-from props import c03
+from props import c03, c20
 
 
 def run(ctx):
@@ -9,6 +9,7 @@ def run(ctx):
           H('VerifC15Proposal', 'pkg/store/v2/proposal', {'pkg/store/v2/proposal/zz_verif_c15.go': 'c15/zz_verif_c15_prop.go'}, unwind=8),
           H('VerifC15Configuration', 'pkg/store/v2/configuration', {'pkg/store/v2/configuration/zz_verif_cfgstore.go': 'c03/zz_verif_cfgstore.go', 'pkg/store/v2/configuration/zz_verif_cfgclient.go': 'c03/zz_verif_cfgclient_sym.go|c03/zz_verif_cfgclient_native.go'}, unwind=12,
             opts={'cuts': {c03.BUILDER_GET: 'atomix-map-by-name', c03.PROTO_CODEC: 'noop'}})]
+    hs.append(H('VerifC15V3Configuration', 'pkg/store/v3/configuration', c20.V3S, unwind=12, opts={'cuts': c20.STORE_CUTS}))
     if ctx.only:
         hs = [h for h in hs if h.entry in ctx.only]
     driver.check_harnesses(ctx, hs)
